@@ -28,7 +28,7 @@
   the model, and the same history breaks the real code (corpus/C07/d15.ops, DESIGN D15, known finding
   bind-after-unsized-filter-exceeds-size).  Hence `pool_never_exceeds_size_partial`.
 -/
-import Galaxy.Lemmas.C07Inter
+import Galaxy.Lemmas.C07Bridge
 
 namespace Galaxy.Props.C07
 open Galaxy Galaxy.Plugin Galaxy.PluginC07
@@ -158,6 +158,22 @@ theorem bind_does_not_grow_when_filter_allocated (F : Plugin.Facts) (s : State) 
     cnt (step F s (.bind ns name uid node ch fault pfault)).1 P ≤ cnt s P := by
   rw [cnt_eq _ P hne, cnt_eq _ P hne]
   exact (step_quiet F s (.bind ns name uid node ch fault pfault) hok (fun _ _ _ _ _ h => by cases h)).cnt P hne
+
+/-- The wording "every bind is preceded by a filter that saw the Pool object" and the state-level side condition of the
+    theorems below are linked: a Filter of a deployment pod of a named pool whose Pool object is in the plugin's lister,
+    answering ok with at least one node, leaves the pod owning an address for every request - so the bind that follows
+    satisfies `bindOK` (whatever it picks), i.e. allocates nothing. -/
+theorem filter_that_saw_pool_makes_bind_ok (F : Plugin.Facts) (s : State) (hc : Coherent s) (ns name : String)
+    (nodes : List String) (ch : Choice) (fault : Nat) (pod : Pod) (z : Nat)
+    (hpod : Tbl.get s.pods (ns, name) = some pod) (hv : Tbl.get s.vPods (ns, name) = some pod)
+    (hw : pod.wants = true) (hdp : (keyOf pod).isDp = true) (hpool : (keyOf pod).pool ≠ "")
+    (hz : Tbl.get s.vPoolObjs (keyOf pod).pool = some z)
+    (hok : (stepB PluginC07.facts F s (.filter ns name nodes ch fault)).2.res = .ok)
+    (hnodes : (stepB PluginC07.facts F s (.filter ns name nodes ch fault)).2.nodes ≠ []) (ch' : Choice) :
+    bindOK (stepB PluginC07.facts F s (.filter ns name nodes ch fault)).1 ns name ch' = true := by
+  rw [fact_c07_shape] at hok hnodes ⊢
+  exact sized_filter_establishes_bindOK (withFaults s fault 0) (coherent_of_eq hc rfl rfl rfl rfl) ns name nodes ch pod z
+    hpod hv hw hdp hpool hz hok hnodes ch'
 
 /-! ### every interleaving -/
 
